@@ -42,6 +42,7 @@ ASSUMPTIONS = [
     "alone-runs execute in separate forked children so that a shared module/class-level cache cannot pollute the oracle",
 ]
 
+INTER_TIMEOUT = 20.0
 ITER_OPS = ("exhaust", "take_close", "take_drop", "take_cycle")
 WHOLE_OPS = ("is_valid", "validate", "tree", "best_match", "consumer_raises")
 OTHER_TYPES = {"string": "integer", "integer": "string", "number": "boolean", "boolean": "number",
@@ -267,13 +268,25 @@ def build_actors(scn, router):
 
 
 class Preempt(object):
-    """Baton-passing scheduler over real threads; pre-emption at traced line events."""
+    """Baton-passing scheduler over real threads; pre-emption at traced line events.
+
+    Exactly one thread holds the baton (`holder`); everybody else waits on one condition variable
+    until the baton is theirs.  Every traced line first checks "do I hold the baton?", so a thread that
+    was blocked inside the library on a real lock (and was therefore skipped, see the watchdog) rejoins
+    the discipline at its next traced line.  The watchdog (main thread) only acts when no traced line
+    has been executed for WATCHDOG seconds: the holder is then blocked on something a parked thread owns;
+    the baton moves to the lowest parked thread.  With lock-free code the watchdog never fires and the
+    schedule is a pure function of the scenario.  If nobody can make progress for DEADLOCK seconds the
+    run is abandoned and reported as a hang.
+    """
+    WATCHDOG = 1.0
+    DEADLOCK = 6.0
 
     def __init__(self, n, points, pkg, first=0, quantum=0):
         import threading
         self.n = n
-        self.sems = [threading.Semaphore(0) for _ in range(n)]
-        self.main = threading.Semaphore(0)
+        self.cv = threading.Condition()
+        self.holder = None
         self.done = [False] * n
         self.idx = {}
         self.step = 0
@@ -287,6 +300,25 @@ class Preempt(object):
         self.threading = threading
         self.quantum = quantum      # >0: round-robin hand-over every `quantum` traced lines (time slicing)
         self.switches = 0
+        self.blocked_events = 0
+        self.blocked = set()        # threads the watchdog found blocked in a real lock; no baton for them until they move
+        self.deadlock = False
+
+    # baton ---------------------------------------------------------------
+    def give(self, to):
+        with self.cv:
+            self.holder = to
+            self.cv.notify_all()
+
+    def wait_baton(self, me):
+        with self.cv:
+            while self.holder != me:
+                self.cv.wait()
+
+    def handoff(self, me, to):
+        self.switches += 1
+        self.give(to)
+        self.wait_baton(me)
 
     # tracing -------------------------------------------------------------
     def tracer(self, frame, event, arg):
@@ -297,11 +329,14 @@ class Preempt(object):
 
     def local(self, frame, event, arg):
         if event == "line":
+            me = self.idx[self.threading.get_ident()]
+            if self.holder != me:
+                self.blocked.discard(me)    # I was blocked in a real lock while the baton moved on; I move again
+                self.wait_baton(me)
             self.step += 1
             if self.pi < len(self.points) and self.step >= self.points[self.pi][0]:
                 _, to = self.points[self.pi]
                 self.pi += 1
-                me = self.idx[self.threading.get_ident()]
                 site = "%s:%d" % (frame.f_code.co_filename[len(self.pkg):], frame.f_lineno)
                 if to == "gc":
                     import gc
@@ -309,62 +344,85 @@ class Preempt(object):
                         self.on_gc(me)
                     gc.collect()
                     self.trace.append([self.step, me, "gc", site])
-                elif to != me and not self.done[to]:
+                elif to != me and not self.done[to] and to not in self.blocked:
                     if self.on_switch:
                         self.on_switch(me, to)
                     self.trace.append([self.step, me, to, site])
-                    self.switches += 1
-                    self.sems[to].release()
-                    self.sems[me].acquire()
+                    self.handoff(me, to)
             elif self.quantum and self.step % self.quantum == 0:
-                me = self.idx[self.threading.get_ident()]
                 to = None
                 for j in range(1, self.n):
                     c = (me + j) % self.n
-                    if not self.done[c]:
+                    if not self.done[c] and c not in self.blocked:
                         to = c
                         break
                 if to is not None:
                     if self.on_switch:
                         self.on_switch(me, to)
-                    self.switches += 1
                     if len(self.trace) < 64:
                         self.trace.append([self.step, me, to, "%s:%d" % (frame.f_code.co_filename[len(self.pkg):],
                                                                           frame.f_lineno)])
-                    self.sems[to].release()
-                    self.sems[me].acquire()
+                    self.handoff(me, to)
         return self.local
 
     # thread bodies -------------------------------------------------------
     def body(self, i, fn):
         import sys
         self.idx[self.threading.get_ident()] = i
-        self.sems[i].acquire()
+        self.wait_baton(i)
         sys.settrace(self.tracer)
         try:
             fn()
         finally:
             sys.settrace(None)
+            if self.holder != i:
+                self.wait_baton(i)
             self.done[i] = True
-            nxt = None
-            for j in range(self.n):
-                if not self.done[j]:
-                    nxt = j
-                    break
-            if nxt is None:
-                self.main.release()
-            else:
-                self.sems[nxt].release()
+            self.blocked.discard(i)
+            live = [j for j in range(self.n) if not self.done[j]]
+            free = [j for j in live if j not in self.blocked]
+            # a thread blocked on a lock that I held can go on now that I am done
+            self.give((free or live or ["main"])[0])
 
     def run(self, fns):
         threads = [self.threading.Thread(target=self.body, args=(i, fn), name="actor-%d" % i, daemon=True)
                    for i, fn in enumerate(fns)]
         for t in threads:
             t.start()
-        self.sems[self.first if self.first < self.n else 0].release()
-        self.main.acquire()
-        for t in threads:
-            t.join()
+        self.give(self.first if self.first < self.n else 0)
+        last = -1
+        stalled = 0.0
+        skipped = set()
+        with self.cv:
+            while self.holder != "main":
+                # lock-free code never trips the 1 s watchdog; once real blocking has been seen in this run the
+                # period drops, so that lock-using (but correct) code is simulated at a bearable cost
+                period = self.WATCHDOG if not self.blocked_events else 0.05
+                if self.cv.wait(timeout=period):
+                    continue
+                if self.holder == "main":
+                    break
+                if self.step != last:
+                    last = self.step
+                    stalled = 0.0
+                    skipped.clear()
+                    continue
+                # no traced line for a whole period: the holder is blocked on something a parked thread owns
+                stalled += period
+                skipped.add(self.holder)
+                cand = [j for j in range(self.n) if not self.done[j] and j not in skipped]
+                if cand:
+                    self.blocked_events += 1
+                    self.blocked.add(self.holder)
+                    self.trace.append([self.step, self.holder, cand[0], "blocked-on-lock"])
+                    self.holder = cand[0]
+                    self.cv.notify_all()
+                elif stalled >= self.DEADLOCK:
+                    self.deadlock = True
+                    break
+        if not self.deadlock:
+            for t in threads:
+                t.join()
 
 
 def pkg_prefix():
@@ -467,6 +525,10 @@ def exec_inter(scn):
         p.on_switch = on_switch
         p.on_gc = on_gc
         p.run([s.run_all for s in steppers])
+        if p.blocked_events:
+            stats["baton_moved_because_holder_blocked_on_lock"] = p.blocked_events
+        if p.deadlock:
+            stats["deadlock"] = 1
         trace = p.trace
         sched_digest = digest([[t[1], t[2], t[3]] for t in trace] + [sched.get("quantum", 0), p.switches])
         steps = p.step
@@ -501,12 +563,31 @@ def run(scn, fork_call):
         sched["horizon"] = horizon
         sched["resolved"] = [[max(1, int(f * horizon)), to] for f, to in sched["fractions"]]
         sched["resolved"].sort(key=lambda p: p[0])
-    inter = fork_call(exec_inter, scn)
+    from dsim.runner import HarnessError
+    try:
+        inter = fork_call(exec_inter, scn, timeout=INTER_TIMEOUT)
+    except HarnessError as e:
+        if "timed out" not in str(e):
+            raise
+        try:
+            fork_call(exec_inter, scn, timeout=INTER_TIMEOUT)     # once more: a hang must be reproducible
+            raise HarnessError("C18 interleaved child timed out once, then finished: " + str(e)[-300:])
+        except HarnessError as e2:
+            if "timed out" not in str(e2) or "then finished" in str(e2):
+                raise
+        # every actor finished alone (in its own child); together they never finish: interference by blocking
+        return {"violations": [{"oracle": "interleaved-run-hung", "where": 0,
+                                "detail": {"timeout_s": INTER_TIMEOUT, "mode": sched["mode"],
+                                           "alone_ops": [len(a["outcomes"]) for a in alone]}}],
+                "nontrivial": False, "stats": {"hung_runs": 1}, "steps": 0,
+                "log_digest": digest(["hung", sched["mode"]]), "states": [], "sched": None}
     violations = list(inter["violations"])
     for i in range(n):
         exp, got = alone[i]["outcomes"], inter["outcomes"][i]
         if len(exp) != len(got):
-            violations.append({"oracle": "program-did-not-complete", "where": i, "detail": {"alone": len(exp), "interleaved": len(got)}})
+            violations.append({"oracle": "interleaved-run-hung" if inter["stats"].get("deadlock") else
+                               "program-did-not-complete", "where": i,
+                               "detail": {"alone": len(exp), "interleaved": len(got)}})
             continue
         for j in range(len(exp)):
             if not same_outcome(exp[j], got[j]):
